@@ -408,7 +408,57 @@ macro_rules! kinds_split {
         }
     };
 }
-kinds_split!(h_remove, c16_pairs_remove_a, c16_pairs_remove_b, c16_whole_remove_a, c16_whole_remove_b);
+/// Whole-item ordering only: two neighbouring physical items share the `key` field (they differ, and are ordered, by
+/// their values).  Erasing one of them changes its rank ((k, None) < (k, Some(_))): known finding F6.  `remove` is
+/// therefore checked on the two halves of the state space separately, so that the finding is confined to one of them.
+fn has_tied_key_fields(d: &SD<Wholes>) -> bool {
+    let s: &[Whole] = &d.items;
+    let mut i = 0;
+    while i + 1 < s.len() {
+        if s[i].key == s[i + 1].key {
+            return true;
+        }
+        i += 1;
+    }
+    false
+}
+fn h_remove_whole_distinct(d: SD<Wholes>) {
+    if !has_tied_key_fields(&d) {
+        h_remove::<Wholes>(d)
+    }
+}
+fn h_remove_whole_tied(d: SD<Wholes>) {
+    if has_tied_key_fields(&d) {
+        kani::cover!(true);
+        h_remove::<Wholes>(d)
+    }
+}
+#[kani::proof]
+#[kani::unwind(@@U@@)]
+fn c16_pairs_remove_a() {
+    for_each_state_in::<Pairs>(0, N - 1, h_remove::<Pairs>)
+}
+#[kani::proof]
+#[kani::unwind(@@U@@)]
+fn c16_pairs_remove_b() {
+    for_each_state_in::<Pairs>(N, N, h_remove::<Pairs>)
+}
+#[kani::proof]
+#[kani::unwind(@@U@@)]
+fn c16_whole_remove_a() {
+    for_each_state_in::<Wholes>(0, N - 1, h_remove_whole_distinct)
+}
+#[kani::proof]
+#[kani::unwind(@@U@@)]
+fn c16_whole_remove_b() {
+    for_each_state_in::<Wholes>(N, N, h_remove_whole_distinct)
+}
+/// The other half: states with tied key fields (3 physical items are enough to show F6).
+#[kani::proof]
+#[kani::unwind(@@U@@)]
+fn c16_whole_remove_tied_keys() {
+    for_each_state_in::<Wholes>(0, 3, h_remove_whole_tied)
+}
 kinds_split!(h_pop_first, c16_pairs_pop_first_a, c16_pairs_pop_first_b, c16_whole_pop_first_a, c16_whole_pop_first_b);
 kinds_split!(h_pop_last, c16_pairs_pop_last_a, c16_pairs_pop_last_b, c16_whole_pop_last_a, c16_whole_pop_last_b);
 kinds_split!(h_iter_clear, c16_pairs_iter_clear_a, c16_pairs_iter_clear_b, c16_whole_iter_clear_a, c16_whole_iter_clear_b);
